@@ -10,6 +10,13 @@
 //!          fseq  "[" per level, closed               (flow sequences)
 //!          fmap  "{a: " per level, closed            (flow mappings)
 //!          mix   block "- " levels around a flow core of (at most) 100 "[" levels
+//!          qflow "[ ? ] , " per level, then d closing "]"   (flow-limit bypass 1: the parser's
+//!                flow_sequence_entry_mapping_key consumes the "]" of "[ ? ]" as the end of the empty key, so the
+//!                parser stays inside the sequence while the scanner's flow_level is back to 0: d nested
+//!                sequences at scanner flow level 1; the text is accepted)
+//!          colons "[" + " :" per level + "]"                (flow-limit bypass 2: fetch_value pushes a synthetic
+//!                FlowMappingStart for every bare ':' inside a flow sequence: d nested mappings at scanner flow
+//!                level 1; the parse ends in an error, but only at the closing "]")
 //!   api    iter   Parser::new_from_str(..) drained as an iterator                (pull interface)
 //!          load   Parser::load into a receiver that only counts                  (push interface)
 //!          drop   Yaml::load_from_str, then drop the documents
@@ -96,6 +103,23 @@ fn build(shape: &str, d: usize) -> Option<String> {
             for _ in 0..f {
                 s.push(']');
             }
+        }
+        "qflow" => {
+            s.reserve(9 * d + 8);
+            for i in 0..d {
+                s.push_str(if i + 1 < d { "[ ? ] , " } else { "[ ? ] " });
+            }
+            for _ in 0..d {
+                s.push(']');
+            }
+        }
+        "colons" => {
+            s.reserve(2 * d + 2);
+            s.push('[');
+            for _ in 0..d {
+                s.push_str(" :");
+            }
+            s.push(']');
         }
         _ => return None,
     }
@@ -240,7 +264,7 @@ fn scenario(api: &str, src: &str) -> String {
 fn main() {
     let a: Vec<String> = std::env::args().collect();
     if a.len() != 4 {
-        println!("USAGE hx_c11 <seq|map|qkey|alt|fseq|fmap|mix> <depth> <iter|load|drop|emit|pdrop|pemit>");
+        println!("USAGE hx_c11 <seq|map|qkey|alt|fseq|fmap|mix|qflow|colons> <depth> <iter|load|drop|emit|pdrop|pemit>");
         std::process::exit(2);
     }
     let depth: usize = match a[2].parse() {
